@@ -1,167 +1,4 @@
-import OpacusLean.Model.Proto
-import OpacusLean.Model.Dist
-/-! driver for C18 (`Float` instance of `OpacusLean.Model.Dist`).  One request per line:
-
-  run <A|H> <mean|sum> <fxEmpty 0|1> <fxScale 0|1> <W> <P> <dims…P> <E> <k> <lr> <std> <noisy 0|1>
-      <flat|perlayer> <C…P> <init: W·D floats> <T> { per step: { per rank: <n> <n·D floats> } <noise: W·P floats> }
-
-  A = DistributedDPOptimizer / ghost twin / SimpleDistributedPerLayerOptimizer (pre_step + reduce_gradients)
-  H = DistributedPerLayerOptimizer under torch DDP (per-parameter hook + DDP averaging)
-  D = Σ dims; floats are binary64 hex; noise = the value the patched `torch.normal` returns on
-  that rank for that parameter in that step (a constant tensor).
-
-reply:  `ok|<params after DPDDP construction, W·D>|<per step, per rank: grad D, params D>|<union run: per step grad D, params D>|<draws per step: n {rank p std}>`
-   or   `err <t> <ranks…>|…` with the steps before `t` (the hook raised on those ranks at step `t`). -/
-open Opacus Opacus.Proto Opacus.Dist
-
-instance : NatCast Float := ⟨Nat.toFloat⟩
-
-def offsets (dims : List Nat) : List Nat := (dims.foldl (fun (acc : List Nat × Nat) d => (acc.1 ++ [acc.2], acc.2 + d)) ([], 0)).1
-
-def mkGrad (dimsL : List Nat) (a : Array Float) (base : Nat) : Grad Float dimsL.length (fun p => dimsL[p]) :=
-  let offs := (offsets dimsL).toArray
-  fun p i => a.getD (base + offs.getD p.val 0 + i.val) 0.0
-
-def flatten {dimsL : List Nat} (g : Grad Float dimsL.length (fun p => dimsL[p])) : List Float :=
-  (List.ofFn fun p : Fin dimsL.length => List.ofFn fun i : Fin dimsL[p] => g p i).flatten
-
-/-- evaluate once, so that closures do not nest across steps -/
-def freeze {dimsL : List Nat} (g : Grad Float dimsL.length (fun p => dimsL[p])) :
-    Grad Float dimsL.length (fun p => dimsL[p]) :=
-  mkGrad dimsL (flatten g).toArray 0
-
-def sq (x : Float) : Float := x * x
-
-def normOf {n : Nat} (v : Fin n → Float) : Float := Float.sqrt (sumFin n fun i => sq (v i))
-
-def fmin (a b : Float) : Float := if a < b then a else b
-
-/-- flat clipping: `per_param_norms → stack → norm`, `(C / (norm + 1e-6)).clamp(max=1)` -/
-def clipFlat {dimsL : List Nat} (C : Float) (g : Grad Float dimsL.length (fun p => dimsL[p])) :
-    Fin dimsL.length → Float :=
-  let n := Float.sqrt (sumFin dimsL.length fun p => sq (normOf (g p)))
-  fun _ => fmin 1.0 (C / (n + 1e-6))
-
-def clipPerLayer {dimsL : List Nat} (Cs : Array Float) (g : Grad Float dimsL.length (fun p => dimsL[p])) :
-    Fin dimsL.length → Float :=
-  fun p => fmin 1.0 (Cs.getD p.val 0.0 / (normOf (g p) + 1e-6))
-
-structure Hdr where
-  hook : Bool
-  red : Reduction
-  fxEmpty : Fix
-  fxScale : Fix
-  W : Nat
-  dimsL : List Nat
-  E : Float
-  k : Float
-  lr : Float
-  std : Float
-  noisy : Bool
-  perLayer : Bool
-  Cs : List Float
-
-def fix? (s : String) : Option Fix := if s = "0" then some .asCoded else if s = "1" then some .repaired else none
-
-def parseHdr : List String → Option (Hdr × List String)
-  | v :: red :: fe :: fs :: w :: rest => do
-    let hook ← if v = "A" then some false else if v = "H" then some true else none
-    let red ← if red = "mean" then some Reduction.mean else if red = "sum" then some Reduction.sum else none
-    let fe ← fix? fe
-    let fs ← fix? fs
-    let W ← w.toNat?
-    let (dimsL, rest) ← takeList? String.toNat? rest
-    match rest with
-    | e :: k :: lr :: std :: noisy :: mode :: rest =>
-      let E ← float? e
-      let k ← float? k
-      let lr ← float? lr
-      let std ← float? std
-      let noisy ← bool? noisy
-      let perLayer ← if mode = "flat" then some false else if mode = "perlayer" then some true else none
-      if rest.length < dimsL.length then none else
-      let Cs ← (rest.take dimsL.length).mapM float?
-      pure (⟨hook, red, fe, fs, W, dimsL, E, k, lr, std, noisy, perLayer, Cs⟩, rest.drop dimsL.length)
-    | _ => none
-  | _ => none
-
-/-- per step: per rank `n` + rows, then `W·P` noise values -/
-def parseStep (W D P : Nat) (toks : List String) : Option ((Array (Array Float × Nat)) × Array Float × List String) := do
-  let mut toks := toks
-  let mut shards : Array (Array Float × Nat) := #[]
-  for _ in [0:W] do
-    match toks with
-    | n :: rest =>
-      let n ← n.toNat?
-      if rest.length < n * D then none
-      let xs ← (rest.take (n * D)).mapM float?
-      shards := shards.push (xs.toArray, n)
-      toks := rest.drop (n * D)
-    | [] => none
-  if toks.length < W * P then none
-  let zs ← (toks.take (W * P)).mapM float?
-  pure (shards, zs.toArray, toks.drop (W * P))
-
-def runCase (h : Hdr) (toks : List String) : Option String := do
-  let dimsL := h.dimsL
-  let P := dimsL.length
-  let D := dimsL.foldl (· + ·) 0
-  let W := h.W
-  if hW : 0 < W then
-    if toks.length < W * D + 1 then none
-    let initA := ((← (toks.take (W * D)).mapM float?)).toArray
-    let toks := toks.drop (W * D)
-    let T ← toks.head?.bind String.toNat?
-    let mut toks := toks.drop 1
-    let clip : Grad Float P (fun p => dimsL[p]) → Fin P → Float :=
-      if h.perLayer then clipPerLayer h.Cs.toArray else clipFlat (h.Cs.headD 0.0)
-    let cD : Cfg Float P (fun p => dimsL[p]) :=
-      ⟨h.red, engineEbs h.E true W, h.k, h.std, h.noisy, h.lr, clip⟩
-    let cS : Cfg Float P (fun p => dimsL[p]) := cD.withEbs (engineEbs h.E false W)
-    let θ0 : Fin W → Grad Float P (fun p => dimsL[p]) := fun w => mkGrad dimsL initA (w.val * D)
-    -- DPDDP / DDP construction
-    let mut θ : Fin W → Grad Float P (fun p => dimsL[p]) := dpddpInit hW θ0
-    let initOut := (List.ofFn fun w => flatten (θ w)).flatten
-    let mut θu : Grad Float P (fun p => dimsL[p]) := θ0 ⟨0, hW⟩
-    let mut stepOut : List Float := []
-    let mut unionOut : List Float := []
-    let mut drawOut : List String := []
-    let mut err : Option String := none
-    for t in [0:T] do
-      let (shards, zs, rest) ← parseStep W D P toks
-      toks := rest
-      let sh : Fin W → List (Grad Float P (fun p => dimsL[p])) := fun w =>
-        let (xs, n) := shards.getD w.val (#[], 0)
-        (List.range n).map fun j => mkGrad dimsL xs (j * D)
-      let z : Fin W → Grad Float P (fun p => dimsL[p]) := fun w => fun p _ => zs.getD (w.val * P + p.val) 0.0
-      -- single-process reference on the union batch (never fails)
-      let gu := freeze (singleStepGrad cS (unionBatch sh) (z ⟨0, hW⟩))
-      θu := freeze (sgd cS.lr θu gu)
-      unionOut := unionOut ++ flatten gu ++ flatten θu
-      if err.isNone then
-        let res : Except (List (Fin W)) (Fin W → Grad Float P (fun p => dimsL[p])) :=
-          if h.hook then hookStepGrad h.fxEmpty h.fxScale cD sh z else .ok (ddpStepGrad cD sh z)
-        match res with
-        | .error bad => err := some s!"err {t} {joinNats (bad.map (·.val))}"
-        | .ok g =>
-          let gA := (List.ofFn fun w => (flatten (g w)).toArray).toArray
-          let gF : Fin W → Grad Float P (fun p => dimsL[p]) := fun w => mkGrad dimsL (gA.getD w.val #[]) 0
-          let θA := (List.ofFn fun w => (flatten (sgd cD.lr (θ w) (gF w))).toArray).toArray
-          θ := fun w => mkGrad dimsL (θA.getD w.val #[]) 0
-          stepOut := stepOut ++ (List.ofFn fun w => flatten (gF w) ++ flatten (θ w)).flatten
-          let dr := ddpDraws cD W
-          drawOut := drawOut ++ [toString dr.length] ++ dr.map fun (w, p, s) => s!"{w.val} {p.val} {floatHex s}"
-    if toks ≠ [] then none
-    let head := err.getD "ok"
-    pure s!"{head}|{joinFloats initOut}|{joinFloats stepOut}|{joinFloats unionOut}|{" ".intercalate drawOut}"
-  else none
-
-def handle (line : String) : String :=
-  match words line with
-  | "run" :: rest =>
-    match parseHdr rest with
-    | some (h, toks) => (runCase h toks).getD "bad-op"
-    | none => "bad-op"
-  | _ => "bad-op"
-
-def main : IO Unit := runPure handle
+import OpacusLean.Model.DistDriver
+/-! driver for C18: the line protocol (documented in `OpacusLean/Model/DistDriver.lean`) over the
+`Float` instance of `OpacusLean.Model.Dist` -/
+def main : IO Unit := Opacus.Proto.runPure Opacus.DistDriver.handle
